@@ -126,15 +126,33 @@ func (w *World) registeringFuncs(reg *ssa.Function) map[*ssa.Function]bool {
 	for changed := true; changed; {
 		changed = false
 		for _, fn := range w.SrcFuncs() {
-			if R[fn] || fn == reg || fn.Signature.Recv() == nil {
+			// methods, and function literals (an arm of a table of readers)
+			if R[fn] || fn == reg || (fn.Signature.Recv() == nil && fn.Parent() == nil) {
 				continue
 			}
 			regBlock := map[*ssa.BasicBlock]bool{}
 			for _, b := range fn.Blocks {
 				for _, in := range b.Instrs {
 					if c, ok := in.(*ssa.Call); ok {
-						if sc := c.Call.StaticCallee(); sc != nil && (sc == reg || R[sc]) {
-							regBlock[b] = true
+						if sc := c.Call.StaticCallee(); sc != nil {
+							if sc == reg || R[sc] {
+								regBlock[b] = true
+							}
+						} else if !c.Call.IsInvoke() {
+							// a call through a function value (an entry of a table of readers):
+							// every function it may denote (call graph; method-expression thunks
+							// looked through) registers
+							cs := w.calleesOf(c)
+							all := len(cs) > 0
+							for _, cal := range cs {
+								t := w.throughWrapper(cal)
+								if !(t == reg || R[t]) {
+									all = false
+								}
+							}
+							if all {
+								regBlock[b] = true
+							}
 						}
 					}
 				}
